@@ -204,8 +204,9 @@ class Table:
             return [self.erase_flags(x) for x in w]
         return w
 
-    def sort_unordered(self, v, spec_kind: Optional[str] = None):
-        """Canonical order inside unordered collections of a Val (reader builds fresh sets)."""
+    def sort_unordered(self, v, spec_kind: Optional[str] = None, dedupe: bool = False):
+        """Canonical order inside unordered collections of a Val (reader builds fresh sets).  `dedupe`: equal members of a
+        collection the reader gathers in a Python set() count once (only damaged documents contain such members)."""
         if v is None or v[0] == "t":
             return v
         if v[0] == "l":
@@ -216,9 +217,11 @@ class Table:
                 head, _, arg = sk.partition(":")
                 unordered = head in ("set", "set1", "elems", "enumset", "lss")
                 inner = arg if head in ("list", "list1", "set", "set1") else None
-            xs = [self.sort_unordered(x, inner) for x in v[1]]
+            xs = [self.sort_unordered(x, inner, dedupe) for x in v[1]]
             if unordered:
                 xs = sorted(xs, key=lambda x: json.dumps(x, sort_keys=True))
+                if dedupe and head in ("set", "set1"):
+                    xs = [x for j, x in enumerate(xs) if j == 0 or x != xs[j - 1]]
             return ["l", xs]
         if v[0] == "n":
             cls = v[1]
@@ -228,7 +231,7 @@ class Table:
                 sk = self.spec_kind(cls, r["attr"])
                 if cls == "Operation" and r["attr"].endswith("_variable"):
                     sk = "set:node:OperationVariable"
-                fs.append(self.sort_unordered(f, sk))
+                fs.append(self.sort_unordered(f, sk, dedupe))
             return ["n", cls, fs]
         return v
 
